@@ -28,6 +28,9 @@ Judge(e) ==
                   THEN << "C15:cli-base-file:differs-from-base-part" >> ELSE <<>>)
             \o (IF e.cli_hidden # Len(SelectSeq(want, LAMBDA d : d.file # "main.s"))
                   THEN << "C15:cli-base-file:hidden-count" >> ELSE <<>>)
+            \* with --all-files the text channel shows everything and announces nothing as hidden
+            \o (IF e.cli_ev = "ok" /\ Bag(Proj(e.cli_af)) # Bag(want) THEN << "C15:cli-all-files-text:differs-from-flattened-file" >> ELSE <<>>)
+            \o (IF e.cli_ev = "ok" /\ e.cli_af_hidden # 0 THEN << "C15:cli-all-files-text:announces-hidden-diagnostics" >> ELSE <<>>)
     ELSE \* the directive is on line c.dirline of file c.dirfile; twin = same tree with that line blank
       LET onDir(ds) == SelectSeq(ds, LAMBDA d : d.file = c.dirfile /\ d.line = c.dirline)
           rest(ds)  == SelectSeq(ds, LAMBDA d : ~(d.file = c.dirfile /\ d.line = c.dirline))
